@@ -231,6 +231,8 @@ FOREIGN = ["#", "$", "%", "&", "@", "_", "{", "}", "|", "~", ",", ";", ":", "'",
            # characters that case-fold or normalise to ASCII letters / digits (Kelvin sign, long s, dotless and
            # dotted i, fullwidth letters, mathematical alphanumerics), also directly after a letter or digit
            "\u212a", "\u017f", "\u0131", "\u0130", "x\u212a", "s\u017f", "4\u0131", "a\u0130b", "\uff58", "\uff11", "x\uff58", "1\uff11", "\U0001d465", "y\U0001d7d0",
+           # pairs and sequences that mean something to string formatting / templating / escaping
+           "{x}", "{}", "e^{-x}", "{1, 2}", "{0}", "{y + 1}", "%s", "%d", "%(x)s", "${x}", "\\n", "\\frac{1}{2}", "{{x}}", "{!r}", "{:d}",
            "\u00b5", "x\u00b5", "\u03bc", "\u2160", "x\u2160", "\u00aa", "a\u00aa", "\u00ba", "\u2074", "x\u2074"]
 
 
